@@ -53,7 +53,7 @@ def generic(pid, corrs, extra=None, thorough_extra=None, skel=None, pregen=None)
             extra(work, res, tier, ok)
             if any(v[1] for v in res.violations[before:]):
                 concrete = True
-        if not ok:
+        if not ok or getattr(res, "broken_proof", None):
             steps.report_broken_proof(res, concrete)
         if tier == "thorough":
             rc, log = core.sh(["lake", "env", "leanchecker", "Ekit.Props." + pid], cwd=core.LEAN, timeout=3000)
